@@ -169,11 +169,22 @@ pub fn corpus(prop: &str) -> Vec<MCase> {
                 // committed choice on arms
                 mk(&["x", "y"], SG::Conj(vec![SG::Call("member", vec![v("x"), ST::List(vec![n(1), n(2)])]), SG::Match("matcha", v("x"), vec![arm(vec![n(1)], vec![SG::Eq(v("y"), n(10))]), arm(vec![ST::Any], vec![SG::Eq(v("y"), n(20))])])])),
                 mk(&["x", "y"], SG::Match("matchu", ST::List(vec![v("x"), v("y")]), vec![arm(vec![ST::List(vec![v("h"), ST::Any])], vec![SG::Call("member", vec![v("h"), ST::List(vec![n(1), n(2)])])]), arm(vec![ST::Any], vec![])])),
+                // a list pattern written in TAIL position binds its names like any other pattern (C13-m)
+                mk(&["q", "b"], SG::Conj(vec![SG::Eq(v("b"), n(5)), SG::Match("match", v("q"), vec![arm(vec![ST::Improper(vec![v("a")], Box::new(ST::List(vec![v("b")])))], vec![SG::Eq(v("a"), n(1)), SG::Eq(v("b"), n(7))])])])),
+                mk(&["q", "x"], SG::Conj(vec![SG::Eq(v("x"), n(9)), SG::Match("matche", v("q"), vec![arm(vec![ST::Improper(vec![v("y")], Box::new(ST::Improper(vec![v("x")], Box::new(ST::Any))))], vec![SG::Eq(v("y"), v("x")), SG::Eq(v("x"), n(2))])])])),
+                // `_` directly as an argument of an UNNAMED compound pattern is a wildcard, in every position and every compound kind (C13-i)
+                mk(&["x", "y"], SG::Conj(vec![SG::Eq(v("x"), ST::Comp(1, vec![n(1), n(2), n(3)])), SG::Match("match", v("x"), vec![arm(vec![ST::Comp(1, vec![ST::Any, v("b"), ST::Any])], vec![SG::Eq(v("y"), ST::List(vec![n(2), v("b")]))]), arm(vec![ST::Comp(1, vec![v("a"), ST::Any, ST::Any])], vec![SG::Eq(v("y"), ST::List(vec![n(1), v("a")]))])])])),
+                mk(&["x", "y"], SG::Conj(vec![SG::Eq(v("x"), ST::Comp(1, vec![n(1), ST::List(vec![n(2)]), n(3)])), SG::Match("matche", v("x"), vec![arm(vec![ST::Comp(1, vec![ST::Any, ST::Any, v("c")])], vec![SG::Eq(v("y"), v("c"))]), arm(vec![ST::Comp(1, vec![v("a"), ST::Any, ST::Any])], vec![SG::Eq(v("y"), v("a"))])])])),
+                mk(&["x", "y"], SG::Match("match", v("x"), vec![arm(vec![ST::Comp(1, vec![ST::Any, v("b"), ST::Any])], vec![SG::Eq(v("b"), n(5)), SG::Eq(v("y"), v("x"))])])),
             ]
         }
         "C14" => vec![
             mk(&["x", "y"], SG::Conj(vec![SG::Eq(v("x"), ST::Improper(vec![n(1), ST::List(vec![n(2), ST::Any])], Box::new(v("y")))), SG::Neq(v("y"), ST::List(vec![]))])),
             mk(&["x"], SG::Op("conde", vec![vec![SG::Eq(v("x"), ST::Chr('a'))], vec![SG::Eq(v("x"), ST::Str(1)), SG::True], vec![SG::False]])),
+            // a statically true clause in the MIDDLE of a disjunction: every clause has its answers (C14-m, C07-m, C06-m)
+            mk(&["x"], SG::Op("conde", vec![vec![SG::Eq(v("x"), n(1))], vec![SG::True], vec![SG::Eq(v("x"), n(2))]])),
+            mk(&["x", "y"], SG::Op("conde", vec![vec![SG::Eq(v("x"), n(1))], vec![SG::True, SG::True], vec![SG::Eq(v("y"), n(2))], vec![SG::Eq(v("x"), n(3)), SG::Eq(v("y"), n(3))]])),
+            mk(&["x"], SG::Op("conde", vec![vec![SG::True], vec![SG::True]])),
             mk(&["q", "x"], SG::Fresh(vec!["x".into()], vec![SG::Eq(v("x"), n(1)), SG::Eq(v("q"), ST::List(vec![v("x"), ST::Bool(true)]))])),
             mk(&["x"], SG::Conj(vec![SG::Closure(vec![SG::Eq(v("x"), n(1)), SG::Op("conde", vec![vec![SG::True], vec![SG::True]])])])),
             mk(&["x", "y"], SG::Conj(vec![SG::Eq(ST::List(vec![]), v("x")), SG::Eq(v("y"), ST::List(vec![ST::List(vec![])]))])),
@@ -181,7 +192,22 @@ pub fn corpus(prop: &str) -> Vec<MCase> {
             mk(&["x", "y"], SG::Conj(vec![SG::Eq(v("x"), ST::Improper(vec![n(1), n(2)], Box::new(ST::List(vec![])))), SG::Eq(v("y"), ST::Improper(vec![v("x")], Box::new(ST::List(vec![n(3)]))))])),
             mk(&["x"], SG::Conj(vec![SG::Neq(v("x"), ST::Improper(vec![n(1)], Box::new(ST::List(vec![])))), SG::Op("conde", vec![vec![SG::Eq(v("x"), ST::List(vec![n(1)]))], vec![SG::Eq(v("x"), ST::List(vec![n(1), ST::List(vec![])]))]])])),
         ],
-        "C15" => vec![],
+        "C15" => {
+            let arm = |ps: Vec<ST>, body: Vec<SG>| (ps, body, false);
+            vec![
+                // a pattern variable named like the matched term does not capture it (C15-a); its renamed twin is generated
+                mk(&["x"], SG::Match("match", v("x"), vec![arm(vec![ST::Improper(vec![v("x")], Box::new(ST::Any))], vec![SG::Eq(v("x"), n(1))])])),
+                mk(&["x", "y"], SG::Conj(vec![SG::Eq(v("x"), ST::List(vec![n(1), n(2)])), SG::Match("matche", v("x"), vec![arm(vec![ST::List(vec![v("x"), v("y")])], vec![SG::Eq(v("x"), n(1))])])])),
+                // an unbound fresh variable as the OPEN TAIL of a list answer is reported as a `_` variable (C15-m)
+                mk(&["q"], SG::Fresh(vec!["x".into()], vec![SG::Eq(v("q"), ST::Improper(vec![n(1)], Box::new(v("x"))))])),
+                mk(&["q"], SG::Fresh(vec!["x".into(), "y".into()], vec![SG::Eq(v("q"), ST::Improper(vec![v("x"), ST::List(vec![n(2)])], Box::new(v("y")))), SG::Neq(v("x"), n(1))])),
+                mk(&["q"], SG::Call("append", vec![ST::List(vec![n(1), n(2)]), v("q"), ST::Improper(vec![n(1), n(2), n(0)], Box::new(ST::Any))])),
+                // a fresh clause nested DIRECTLY in another fresh clause's body re-using a visible name is its own variable (C15-i)
+                mk(&["q"], SG::Fresh(vec!["x".into()], vec![SG::Eq(v("x"), n(1)), SG::Fresh(vec!["x".into()], vec![SG::Eq(v("x"), n(2))]), SG::Eq(v("q"), v("x"))])),
+                mk(&["q"], SG::Fresh(vec!["x".into(), "y".into()], vec![SG::Fresh(vec!["x".into()], vec![SG::Eq(v("x"), ST::List(vec![v("y")]))]), SG::Eq(v("y"), n(7)), SG::Eq(v("q"), ST::List(vec![v("x"), v("y")]))])),
+                mk(&["q"], SG::Fresh(vec!["y".into()], vec![SG::Eq(v("y"), ST::List(vec![v("q")])), SG::Fresh(vec!["q".into()], vec![SG::Eq(v("q"), n(0))]), SG::Neq(v("y"), ST::List(vec![n(0)]))])),
+            ]
+        }
         "C12" => {
             // repeated neighbours in the collection, a body with two answers per element (C12-a)
             let two = |k: isize| SG::Op("conde", vec![vec![SG::Eq(v("e"), n(k))], vec![SG::True]]);
@@ -300,6 +326,43 @@ pub fn run_cases(prop: &str, list_path: &str, outdir: &str, case_fn: &dyn Fn(usi
                 out.stat("brute_force_semantics_checked");
                 if let Some(f) = crate::c02::check_answers(p.nq, a, &sols) {
                     fail = Some(format!("`{}`: {} (brute-force ground semantics of the documented meaning)", row[3], f));
+                }
+            }
+        }
+        // oracle 4 (independent of the OPERATORS' code: the harness's own interpreter of the documented meaning, search.rs): for
+        // finite programs it can evaluate, the answers' TERMS are the same multiset — also the NUMBER of answers, which the
+        // ground-instance oracle cannot see (seeded change C14-m: `Conde::solve` overwrote the stream at a statically-true
+        // middle clause, `conde { q == 1, true, q == 2 }` lost its last answer; the reference program shares `Conde`)
+        if fail.is_none() && !cut && p.take == 0 {
+            // (the interpreter panics on goal kinds it does not know: then this oracle does not apply)
+            if let (RunOut::Answers(a, false), Ok(Some(want))) = (&mo, crate::catch(|| crate::search::ref_answers(&p, 12))) {
+                let strip = |v: Vec<String>| -> Vec<String> {
+                    let mut w: Vec<String> = v.iter().map(|x| x.split(" @ ").next().unwrap_or("").trim().to_string()).collect();
+                    w.sort();
+                    w
+                };
+                let got: Vec<String> = a.iter().map(|x| x.show("")).collect();
+                out.stat("independent_interpreter_checked");
+                if strip(got.clone()) != strip(want.clone()) {
+                    fail = Some(format!("`{}`: the answers' terms differ from the documented meaning evaluated by the independent interpreter: {} answers, expected {}", row[3], got.len(), want.len()));
+                }
+            }
+        }
+        // oracle 5: every variable an answer reports is a reified `_` variable — a fresh or pattern variable that shows under its
+        // own name makes the answer depend on how the program NAMES its bound variables (seeded change C15-m: `SMap::reify`
+        // stopped before the open tail of a list, `q == [1 | x]` was reported as `[1 | x]`)
+        if fail.is_none() {
+            if let RunOut::Answers(a, _) | RunOut::Budget(a) = &mo {
+                fn plain_var(t: &T) -> bool {
+                    match t {
+                        T::Var(_) => true,
+                        T::Cons(h, tl) => plain_var(h) || plain_var(tl),
+                        T::Comp(_, args) => args.iter().any(plain_var),
+                        _ => false,
+                    }
+                }
+                if let Some(bad) = a.iter().flat_map(|x| x.terms.iter()).find(|t| plain_var(t)) {
+                    fail = Some(format!("`{}`: the answer term {} contains a variable that is not a reified `_` variable (its name would show in the answer: renaming a bound variable changes it)", row[3], bad.text()));
                 }
             }
         }
